@@ -24,6 +24,7 @@
 
 // local sources
 #include "dbgroup/thread/common.hpp"
+#include "dbgroup/verif/hooks.hpp"
 
 namespace dbgroup::thread::component
 {
@@ -35,6 +36,7 @@ auto
 Epoch::GetCurrentEpoch() const  //
     -> size_t
 {
+  DBGROUP_VERIF_POINT_AT_EXIT(kEpochEnterGap, this);
   return current_->load(kAcquire);
 }
 
@@ -53,6 +55,7 @@ void
 Epoch::EnterEpoch()
 {
   entered_.store(GetCurrentEpoch(), kRelaxed);
+  DBGROUP_VERIF_POINT(kEpochEntered, this);
 }
 
 void
